@@ -8,7 +8,7 @@ import string
 import vlib
 from vlib import Refusal, cstr, clist
 from translate import pymini
-from c07_values import VALUES, ERRORS
+from c07_values import VALUES, ERRORS, BOTH_ORDERS
 
 RUNTIME = 'pedal/assertions/runtime.py'
 
@@ -223,6 +223,13 @@ def correspondence(ctx):
                 if ctx.tier == 'quick' and rng.random() < 0.6:
                     continue
                 cases.append({'assertion': name, 'left': i, 'right': j, 'wl': False, 'wr': False})
+    for a_, b_ in BOTH_ORDERS:
+        i, j = [k for k, v in enumerate(VALUES) if type(v) is type(a_) and v == a_][0], [k for k, v in enumerate(VALUES) if type(v) is type(b_) and v == b_][0]
+        for name in ('assert_equal', 'assert_not_equal'):
+            for x, y in ((i, j), (j, i)):
+                c = {'assertion': name, 'left': x, 'right': y, 'wl': False, 'wr': False}
+                if c not in cases:
+                    cases.append(c)
     # the other three wrappings: for every assertion and every ordered pair of operand KINDS (int, float, bool, str, list, tuple,
     # dict, set, None, ...) at least two value pairs, plus random pairs
     by_kind = {}
@@ -426,7 +433,134 @@ def correspondence(ctx):
                 'non-trivial = the assertion fired.' % n)
 
 
+# ---------------------------------------------------------------- equality_test: Coq model vs the implementation
+EQ_HEADER = ('From Coq Require Import ZArith QArith List Bool.\nImport ListNotations.\n'
+             'From Pedal Require Import model.C07_Equality.\n'
+             'Definition check_equality (c : bool * Q * val * val * bool) : bool :=\n'
+             "  let '(exact, delta, a, e, observed) := c in Bool.eqb (equality_test exact delta a e) observed.\n")
+
+
+class NotInUniverse(Exception):
+    pass
+
+
+def coq_q(x):
+    from fractions import Fraction
+    fr = Fraction(repr(x)) if isinstance(x, float) else Fraction(x)
+    return '(%d # %d)%%Q' % (fr.numerator, fr.denominator)
+
+
+def coq_scalar(v, ids):
+    if isinstance(v, bool):
+        return '(SBool %s)' % vlib.cbool(v)
+    if isinstance(v, int):
+        return '(SInt (%d)%%Z)' % v
+    if isinstance(v, float):
+        return 'SNaN' if v != v else '(SFloat %s)' % coq_q(v)
+    if isinstance(v, str):
+        ex = ids['exact'].setdefault(v, len(ids['exact']))
+        nm = ids['norm'].setdefault(ids['normal_forms'][v], len(ids['norm']))
+        return '(SStr %d %d)' % (ex, nm)
+    if v is None:
+        return 'SNone'
+    raise NotInUniverse(repr(v))
+
+
+def coq_val(v, ids):
+    if isinstance(v, list):
+        return '(VList %s)' % clist([coq_val(x, ids) for x in v])
+    if isinstance(v, tuple):
+        return '(VTuple %s)' % clist([coq_val(x, ids) for x in v])
+    if isinstance(v, frozenset):
+        return '(VFrozen %s)' % clist([coq_scalar(x, ids) for x in sorted(v, key=repr)])
+    if isinstance(v, set):
+        return '(VSet %s)' % clist([coq_scalar(x, ids) for x in sorted(v, key=repr)])
+    if isinstance(v, dict):
+        return '(VDict %s)' % clist(['(%s, %s)' % (coq_scalar(k, ids), coq_val(x, ids)) for k, x in v.items()])
+    return '(Sc %s)' % coq_scalar(v, ids)
+
+
+def numbers_in(v):
+    if isinstance(v, bool):
+        return
+    if isinstance(v, (int, float)):
+        if v == v:
+            yield v
+    elif isinstance(v, dict):
+        for k, x in v.items():
+            yield from numbers_in(k)
+            yield from numbers_in(x)
+    elif isinstance(v, (list, tuple, set, frozenset)):
+        for x in v:
+            yield from numbers_in(x)
+
+
+def at_rounding_boundary(a, b, delta):
+    from fractions import Fraction
+    d = Fraction(repr(delta))
+    for x in numbers_in(a):
+        for y in numbers_in(b):
+            if isinstance(x, float) or isinstance(y, float):
+                diff = abs(Fraction(repr(x)) - Fraction(repr(y)))
+                if abs(diff - d) < Fraction(1, 10 ** 9):
+                    return True
+    return False
+
+
+def equality_correspondence(ctx):
+    rng = ctx.rng
+    n = len(VALUES)
+    options = [(False, 0.001), (True, 0.001), (False, 0.5), (False, 0.00001)]
+    quads = []
+    for i in range(n):
+        for j in range(n):
+            for exact, delta in options:
+                if ctx.tier == 'quick' and (exact, delta) != (False, 0.001) and rng.random() < 0.6:
+                    continue
+                quads.append([i, j, exact, delta])
+    res = vlib.run_impl('c07_impl.py', {'cases': [], 'unit_tests': [], 'outputs': [], 'equality': quads}, timeout=900)
+    ids = {'exact': {}, 'norm': {}, 'normal_forms': res['normal_forms']}
+    terms = {}
+    for i, v in enumerate(VALUES):
+        try:
+            terms[i] = coq_val(v, ids)
+        except NotInUniverse:
+            terms[i] = None
+    items, idx = [], []
+    for q, ob in zip(quads, res['equality']):
+        i, j, exact, delta = q
+        if terms[i] is None or terms[j] is None:
+            ctx.count('equality:outside-the-model-universe')
+            continue
+        if at_rounding_boundary(VALUES[i], VALUES[j], delta):
+            # exact rationals vs binary floats: 5.0005 - 4.9995 is 0.001 exactly but 0.00099999999999945 in floating point
+            ctx.count('equality:skipped-at-the-rounding-boundary')
+            continue
+        observed = ob is True      # an exception inside equality_test (KeyError on a key that only matches within the tolerance) fails the assertion
+        items.append('(%s, %s, %s, %s, %s)' % (vlib.cbool(exact), coq_q(delta), terms[i], terms[j], vlib.cbool(observed)))
+        idx.append(q)
+        ctx.count('equality-pairs-compared-with-the-model')
+        # order independence on the implementation itself
+    by = {(q[0], q[1], q[2], q[3]): ob for q, ob in zip(quads, res['equality'])}
+    for (i, j, exact, delta), ob in by.items():
+        other = by.get((j, i, exact, delta))
+        if other is not None and (ob is True) != (other is True) and i < j:
+            ctx.violation('equal-asymmetric', {'operands': [repr(VALUES[i]), repr(VALUES[j])], 'exact_strings': exact, 'delta': delta,
+                                               'why': 'equality_test(%r, %r, %s, %s) is %s but with the operands swapped %s'
+                                                      % (VALUES[i], VALUES[j], exact, delta, ob, other)})
+    bad = ctx.coq_cases('equality', EQ_HEADER, items, 'check_equality', chunk=500)
+    ctx.obligation('correspondence:equality_test(Coq model = pedal.utilities.comparisons.equality_test on %d ordered operand pairs x options)' % len(items),
+                   not bad, str([idx[i] for k, i, d in bad if k == 'mismatch'][:6]))
+    for kind, i, detail in bad[:4]:
+        if kind == 'mismatch':
+            a, b, exact, delta = idx[i]
+            ctx.broken.append(('correspondence', 'C07:equality_test', json.dumps({'actual': repr(VALUES[a]), 'expected': repr(VALUES[b]), 'exact_strings': exact, 'delta': delta})))
+        else:
+            ctx.broken.append(('correspondence', 'C07:equality_test', detail))
+
+
 def run(ctx):  # noqa: F811
     translate(ctx)
     ctx.coq_props()
     correspondence(ctx)
+    equality_correspondence(ctx)
